@@ -8,6 +8,7 @@ import (
 	"runtime"
 	"strings"
 	"sync"
+	"verifharness/ref"
 
 	"github.com/gobwas/httphead"
 	"github.com/gobwas/ws"
@@ -68,7 +69,7 @@ func statelessScript(seed int64, k int) []string {
 		if h.Masked {
 			rng.Read(h.Mask[:])
 		}
-		switch rng.Intn(14) {
+		switch rng.Intn(17) {
 		case 0:
 			var w yieldW
 			err := ws.WriteHeader(&w, h)
@@ -146,6 +147,59 @@ func statelessScript(seed int64, k int) []string {
 			var hw yieldW
 			n, err := ws.HandshakeHeaderString(fmt.Sprintf("X-K: %d\r\n", rng.Intn(1000))).WriteTo(&hw)
 			add("HeaderString %d %v %s", n, err, hw.b)
+		case 14, 15, 16:
+			// a session that SKIPS payload: a message thrown away with Reader.Discard, a message of the unwanted type
+			// dropped by the type-filtered helpers, an intermediate control frame its handler leaves unread - over a
+			// source that captures what it delivers (a traffic recorder: io.TeeReader). The capture holds this
+			// session's bytes, whatever other sessions are skipping at the same moment.
+			var stream []byte
+			enc := func(op byte, fin bool, p []byte) {
+				f := ref.Frame{H: ref.Header{Fin: fin, Op: op, Masked: true}, Payload: p}
+				rng.Read(f.H.Mask[:])
+				stream = append(stream, f.Encode()...)
+			}
+			skipped, wanted := bytesOf(200+rng.Intn(3000)), []byte(fmt.Sprintf("wanted-%d", rng.Intn(100000)))
+			enc(ref.OpBinary, false, skipped[:len(skipped)/2])
+			enc(ref.OpPing, true, bytesOf(1+rng.Intn(100)))
+			enc(ref.OpCont, true, skipped[len(skipped)/2:])
+			enc(ref.OpText, true, wanted)
+			var capture bytes.Buffer
+			src := io.TeeReader(&yieldR{b: stream, step: 7 + rng.Intn(900)}, &capture)
+			var got []byte
+			var err error
+			switch i % 3 {
+			case 0:
+				rd := &wsutil.Reader{Source: src, State: ws.StateServerSide}
+				rd.OnIntermediate = func(ws.Header, io.Reader) error { return nil } // (leaves the ping unread)
+				if _, err = rd.NextFrame(); err == nil {
+					if err = rd.Discard(); err == nil {
+						if _, err = rd.NextFrame(); err == nil {
+							got, err = io.ReadAll(rd)
+						}
+					}
+				}
+			case 1:
+				got, err = wsutil.ReadClientText(struct {
+					io.Reader
+					io.Writer
+				}{src, io.Discard})
+			default:
+				var h ws.Header
+				var r io.Reader
+				if h, r, err = wsutil.NextReader(src, ws.StateServerSide); err == nil {
+					_ = h
+					io.CopyN(io.Discard, r, 3)
+					if d, ok := r.(*wsutil.Reader); ok {
+						err = d.Discard()
+					}
+					if err == nil {
+						if _, r, err = wsutil.NextReader(src, ws.StateServerSide); err == nil {
+							got, err = io.ReadAll(r)
+						}
+					}
+				}
+			}
+			add("Skip %d %v %q capture-intact=%v", i%3, err, got, bytes.Equal(capture.Bytes(), stream[:capture.Len()]))
 		}
 	}
 	return out
